@@ -340,13 +340,15 @@ def eval3(e: ast.AST, val: Callable[[ast.AST], Optional[bool]]):
     return None
 
 
-def reach_under(g: CFG, val: Callable[[ast.AST], Optional[bool]], start: Optional[int] = None) -> Set[int]:
+def reach_under(g: CFG, val: Callable[[ast.AST], Optional[bool]], start: Optional[int] = None,
+                avoid: Iterable[int] = ()) -> Set[int]:
     """Nodes reachable from ENTRY when every branch whose test is decided by `val` is taken that way only."""
     seen: Set[int] = set()
+    avoid = set(avoid)
     stack = [g.entry if start is None else start]
     while stack:
         n = stack.pop()
-        if n in seen:
+        if n in seen or n in avoid:
             continue
         seen.add(n)
         kind, stmt = g.kind[n], g.stmt[n]
